@@ -103,12 +103,13 @@ fn classify(o: &ChildOut) -> Verdict {
 
 fn parent(prop: &str, tier: &str) -> i32 {
     let t0 = Instant::now();
-    let entries: Vec<&cat::Entry> = cat::CATALOGUE.iter().filter(|e| e.prop == prop).collect();
+    let quick = tier == "quick";
+    let all = cat::catalogue();
+    let entries: Vec<&cat::Entry> = all.iter().filter(|e| e.prop == prop && !(quick && e.thorough_only)).collect();
     if entries.is_empty() {
         eprintln!("MACHINERY: no loom harness for {prop}");
         return 2;
     }
-    let quick = tier == "quick";
     let mut per = Vec::new();
     let mut total_sched = 0u64;
     let mut total_outcomes = 0u64;
@@ -125,7 +126,7 @@ fn parent(prop: &str, tier: &str) -> i32 {
                 let timeout = if quick { 120 } else { 3600 };
                 let cp = format!("{}/replays/{prop}/{prop}-loom-{}.checkpoint.json", verif(), e.name);
                 let _ = std::fs::remove_file(&cp);
-                let name = e.name;
+                let name = e.name.as_str();
                 s.spawn(move || run_child(name, bound, Some(&cp), timeout))
             })
             .collect();
@@ -156,7 +157,7 @@ fn parent(prop: &str, tier: &str) -> i32 {
                 let mut same = true;
                 let mut msgs = Vec::new();
                 for _ in 0..2 {
-                    let r = run_child(e.name, bound, Some(&cp), timeout);
+                    let r = run_child(&e.name, bound, Some(&cp), timeout);
                     match classify(&r) {
                         Verdict::Violation(m) => msgs.push(m),
                         _ => same = false,
